@@ -558,7 +558,7 @@ def m_C06(v):
     out = []
     last_stage = None
     for i, k in enumerate(v.kind):
-        if k == "deploy":
+        if k == "deploy" or v.ops[i][0].startswith("restore"):
             last_stage = None
         if k == "dump" and v.D[i]:
             g, _ = v.D[i]
